@@ -201,6 +201,54 @@ func main() { mon.Main("C13", run) }
 
 func run(r *mon.Run) {
 	r.Rule("exhaustive: all byte strings of length <= L1 over the full byte alphabet and of length <= L2 over a 26-symbol grammar alphabet; seeded: nested items (valid, one head lengthened, adjacent map pairs swapped / duplicated, one length or count corrupted incl. values around 2^62, 2^63, 2^64), encoder output, the repository's testfile.wbn; distinct = structural shape (major type + additional info of each byte for short strings; mutation kind x node type x outcome for generated ones)")
+
+	// valid items wrapped in, or preceded by, something outside the five major types: tags of every head size (the
+	// numbers applications know, self-described CBOR 55799 among them), simple values and floats, negative integers -
+	// at the top level, as an array element, as a map key and as a map value
+	if r.Mine(5) {
+		be := func(v uint64, n int) []byte {
+			b := make([]byte, n)
+			for i := n - 1; i >= 0; i-- {
+				b[i] = byte(v)
+				v >>= 8
+			}
+			return b
+		}
+		var prefixes [][]byte
+		for _, tag := range []uint64{0, 1, 2, 3, 4, 5, 21, 22, 23, 24, 32, 36, 255, 256, 55799, 55800, 65535, 65536, 1 << 32, ^uint64(0)} {
+			switch {
+			case tag < 24:
+				prefixes = append(prefixes, []byte{0xc0 | byte(tag)})
+			case tag < 1<<8:
+				prefixes = append(prefixes, append([]byte{0xd8}, be(tag, 1)...))
+			case tag < 1<<16:
+				prefixes = append(prefixes, append([]byte{0xd9}, be(tag, 2)...))
+			case tag < 1<<32:
+				prefixes = append(prefixes, append([]byte{0xda}, be(tag, 4)...))
+			default:
+				prefixes = append(prefixes, append([]byte{0xdb}, be(tag, 8)...))
+			}
+		}
+		prefixes = append(prefixes, []byte{0xf4}, []byte{0xf6}, []byte{0xf8, 0x20}, []byte{0xf9, 0, 0}, []byte{0xfb, 0, 0, 0, 0, 0, 0, 0, 0}, []byte{0x20}, []byte{0x38, 0x18})
+		items := [][]byte{{0x0a}, {0x43, 'a', 'b', 'c'}, {0x63, 'a', 'b', 'c'}, {0x82, 1, 2}, {0xa1, 1, 2}, {}}
+		cat := func(parts ...[]byte) []byte {
+			var o []byte
+			for _, p := range parts {
+				o = append(o, p...)
+			}
+			return o
+		}
+		for _, p := range prefixes {
+			for _, it := range items {
+				w := cat(p, it)
+				check(r, w, "wrapped/top-level", 97)
+				check(r, cat([]byte{0x01}, w), "wrapped/after-an-item", 97)
+				check(r, cat([]byte{0x82, 0x01}, w), "wrapped/array-element", 97)
+				check(r, cat([]byte{0xa1}, w, []byte{0x01}), "wrapped/map-key", 97)
+				check(r, cat([]byte{0xa1, 0x01}, w), "wrapped/map-value", 97)
+			}
+		}
+	}
 	r.Assume("rcbor strict mode restricted to majors 0,2,3,4,5, no UTF-8 requirement; a panic of Deterministic counts as rejection (the repository's own tests require panics on truncated input)")
 	fullLen, alphaLen := 2, 5
 	if r.Thorough {
